@@ -253,3 +253,43 @@ package types
 //@   ensures C10.unfold: result == unfolded(orig, dom(labelledTypesEnv), vals(labelledTypesEnv))
 //@   ensures C10.unfoldNoName: !is(result, LabelType)
 //@   safety C09
+
+// ---------------------------------------------------------------------------------------------
+// C16: mode inference
+//
+// (a) conversion of a parsed type: an annotation governs the whole type up to the next shift; the continuation
+//     of a shift takes the shift's source mode.
+
+//@ macro unsetM(m Modality) bool = is(m, UnsetMode)
+//@ macro convOpts(ins []OptionInitial, mode Modality, outs []Option) bool = len(outs) == len(ins) &&
+//@        (forall k int :: 0 <= k && k < len(ins) ==> outs[k].Label == ins[k].Label && conv(ins[k].Session_type, mode, outs[k].SessionType))
+//@ spec conv(st SessionTypeInitial, mode Modality, t SessionType) bool = t != nil &&
+//@    (is(st, ExplicitModeTypeInitial) ==> conv(ExplicitModeTypeInitial(st).Continuation, ExplicitModeTypeInitial(st).Modality, t)) &&
+//@    (is(st, LabelTypeInitial) ==> is(t, LabelType) && LabelType(t).Label == LabelTypeInitial(st).Label && LabelType(t).Mode == mode) &&
+//@    (is(st, UnitTypeInitial) ==> is(t, UnitType) && UnitType(t).Mode == mode) &&
+//@    (is(st, SendTypeInitial) ==> is(t, SendType) && SendType(t).Mode == mode && conv(SendTypeInitial(st).Left, mode, SendType(t).Left) && conv(SendTypeInitial(st).Right, mode, SendType(t).Right)) &&
+//@    (is(st, ReceiveTypeInitial) ==> is(t, ReceiveType) && ReceiveType(t).Mode == mode && conv(ReceiveTypeInitial(st).Left, mode, ReceiveType(t).Left) && conv(ReceiveTypeInitial(st).Right, mode, ReceiveType(t).Right)) &&
+//@    (is(st, SelectLabelTypeInitial) ==> is(t, SelectLabelType) && SelectLabelType(t).Mode == mode && convOpts(SelectLabelTypeInitial(st).Branches, mode, SelectLabelType(t).Branches)) &&
+//@    (is(st, BranchCaseTypeInitial) ==> is(t, BranchCaseType) && BranchCaseType(t).Mode == mode && convOpts(BranchCaseTypeInitial(st).Branches, mode, BranchCaseType(t).Branches)) &&
+//@    (is(st, UpTypeInitial) ==> is(t, UpType) && UpType(t).From == UpTypeInitial(st).From && UpType(t).To == UpTypeInitial(st).To && conv(UpTypeInitial(st).Continuation, UpTypeInitial(st).From, UpType(t).Continuation)) &&
+//@    (is(st, DownTypeInitial) ==> is(t, DownType) && DownType(t).From == DownTypeInitial(st).From && DownType(t).To == DownTypeInitial(st).To && conv(DownTypeInitial(st).Continuation, DownTypeInitial(st).From, DownType(t).Continuation))
+
+//@ contract interface SessionTypeInitial.toSessionType(self, mode)
+//@   ensures C16.conv: conv(self, mode, result)
+//@   ensures C16.annot: unsetM(mode) || is(self, ExplicitModeTypeInitial) || tag(modeOf(result)) == tag(mode)
+//@   safety C09
+
+// the annotation written in front of a type is the mode of the converted type
+//@ contract (*ExplicitModeTypeInitial).toSessionType
+//@   ensures C16.annotExplicit: unsetM(q.Modality) || is(q.Continuation, ExplicitModeTypeInitial) || tag(modeOf(result)) == tag(q.Modality)
+
+//@ contract (*SelectLabelTypeInitial).toSessionType
+//@   loop 1 invariant 0 <= i && i <= len(q.Branches) && len(branches) == len(q.Branches)
+//@   loop 1 invariant (forall k int :: 0 <= k && k < i ==> branches[k].Label == q.Branches[k].Label && conv(q.Branches[k].Session_type, mode, branches[k].SessionType))
+//@ contract (*BranchCaseTypeInitial).toSessionType
+//@   loop 1 invariant 0 <= i && i <= len(q.Branches) && len(branches) == len(q.Branches)
+//@   loop 1 invariant (forall k int :: 0 <= k && k < i ==> branches[k].Label == q.Branches[k].Label && conv(q.Branches[k].Session_type, mode, branches[k].SessionType))
+
+//@ contract ConvertSessionTypeInitialToSessionType
+//@   ensures C16.convTop: result != nil && (exists m Modality :: unsetM(m) && conv(st, m, result))
+//@   safety C09
